@@ -3729,4 +3729,165 @@ theorem specPairsUnion_isCol (env : Env) (tgt : List String) (parts : List (List
       exact srcKeys_isCol _ _ _ x hx'
 
 
+/-- **end to end, query level, set operation** -/
+theorem exWriteQueryUnion_exact (env : Env) (isInsert : Bool) (tgt : List String) (first : Branch) (rest : List OpBranch)
+    (hp : env.prov.truthy = false) (hfrag : fragSetop env tgt (.setop first rest) = true) :
+    ∃ g, exWriteQuery env isInsert tgt none (.setop first rest) = .ok g ∧
+      EdgesExact g (specPairsUnion env tgt (setopParts first rest))
+        ((setopParts first rest).flatMap (fun b => fromTabs env b.2)) [] := by
+  simp only [fragSetop, Bool.and_eq_true, Bool.not_eq_true', List.any_eq_false, beq_iff_eq, decide_eq_true_eq] at hfrag
+  obtain ⟨⟨⟨⟨⟨hf, hr⟩, hself⟩, hparts⟩, hkeys1⟩, hnd⟩ := hfrag
+  obtain ⟨s, nm, al, hmk⟩ : ∃ s nm al, mkTable env tgt none = ⟨.table s nm, al⟩ := ⟨_, _, _, rfl⟩
+  have hprinted : (mkTable env tgt none).printed = s ++ "." ++ nm := by rw [hmk]; rfl
+  have hd : (mkTable env tgt none).d = .table s nm := by rw [hmk]
+  -- the groups
+  have hfe := setopParts_feOK first rest hf hr
+  have hcte : cteObjs (g0 (mkTable env tgt none)) = [] := by
+    apply cteObjs_nil
+    intro d'; rw [g0_tag]; simp
+  have hgrp : (setopParts first rest).map (grpOf env (g0 (mkTable env tgt none))) =
+      (setopParts first rest).map (fun b => (b.1.map (colSpecOf env), fromTabs env b.2)) := by
+    apply List.map_congr_left
+    intro b hb
+    simp only [grpOf, tablesOfFrom_tab env _ hcte b.2 (hfe b hb)]
+  generalize hparts_def : setopParts first rest = parts at *
+  cases parts with
+  | nil => simp [setopParts] at hparts_def
+  | cons b1 restp =>
+    have hb1 : branchParts first = b1 := by
+      unfold setopParts at hparts_def
+      exact (List.cons.inj hparts_def).1
+    rw [hb1] at hkeys1 hnd hparts
+    -- all tables, the holder after the reads
+    have hall : ((b1 :: restp).map (fun b => (b.1.map (colSpecOf env), fromTabs env b.2))).flatMap (·.2) =
+        (b1 :: restp).flatMap (fun b => fromTabs env b.2) := by
+      rw [List.flatMap_map]
+    have hTRall : ∀ o ∈ (b1 :: restp).flatMap (fun b => fromTabs env b.2), isTabRef o = true := by
+      intro o ho
+      obtain ⟨b, _, hb⟩ := List.mem_flatMap.mp ho
+      exact fromTabs_isTabRef env b.2 o hb
+    have hself' : ∀ o ∈ (b1 :: restp).flatMap (fun b => fromTabs env b.2), o.d ≠ .table s nm := fun o ho => by
+      have := hself o ho; rw [hd] at this; simpa using this
+    obtain ⟨hb, hbE⟩ := readBase (mkTable env tgt none) (by rw [hd]; rfl) _ hTRall
+    rw [hd] at hb
+    have hout : (((b1 :: restp).flatMap (fun b => fromTabs env b.2)).foldl addReadO (g0 (mkTable env tgt none))).outEdges
+        (.ds (.table s nm)) = [] := by
+      rw [List.eq_nil_iff_forall_not_mem]
+      intro v hv
+      obtain ⟨o, ho, _, _, hu, _⟩ := (hbE _ _).mp ((mem_outEdges _ _ _).mp hv)
+      exact hself' o ho (Node.ds.inj hu).symm
+    have hg1col := nocol_foldl_addReadO _ (g0 (mkTable env tgt none)) hTRall
+      (by intro m hm; rw [g0_nodes] at hm; simp only [List.mem_singleton] at hm; rw [hm]; rfl)
+    -- sources of an item of a branch
+    have hsrcB : ∀ b ∈ b1 :: restp, ∀ c ∈ b.1.map (colSpecOf env), ∀ g', Frame
+        (((b1 :: restp).flatMap (fun b => fromTabs env b.2)).foldl addReadO (g0 (mkTable env tgt none))) g' →
+        (∀ x, x ∈ (toSourceColumns env.importDefault (aliasMapping g' (fromTabs env b.2)) c env.revStar).map (·.key) ↔
+          x ∈ c.srcs.flatMap (srcKeys env.importDefault (fromTabs env b.2))) ∧
+        (∀ y ∈ toSourceColumns env.importDefault (aliasMapping g' (fromTabs env b.2)) c env.revStar,
+          colOK y ∧ ∀ sp, y.parent? = some sp → sp.1 ≠ .table s nm) := by
+      intro b hbm c hc g' hfr
+      obtain ⟨it, hit, rfl⟩ := List.mem_map.mp hc
+      have hpb := List.all_eq_true.mp hparts b hbm
+      simp only [Bool.and_eq_true, beq_iff_eq] at hpb
+      obtain ⟨⟨⟨hU, hcons⟩, hits⟩, _⟩ := hpb
+      rw [hd] at hits
+      have hsub : ∀ o ∈ fromTabs env b.2, o ∈ (b1 :: restp).flatMap (fun b => fromTabs env b.2) :=
+        fun o ho => List.mem_flatMap.mpr ⟨b, hbm, ho⟩
+      have hk := toSourceColumns_keys env.importDefault g' (fromTabs env b.2) (colSpecOf env it) env.revStar
+        (fromTabs_isTabRef env b.2) (aliasOK_sub (aliasOK_frame hfr hb.alias) hsub hcons) hU (some (.table s nm))
+        (by intro T' hT'; cases hT'; exact fun o ho => hself' o (hsub o ho))
+        (by
+          intro r hr'
+          obtain ⟨e, a, kw⟩ := it
+          rw [colSpecOf_srcs] at hr'
+          obtain ⟨r0, hr0, rfl⟩ := List.mem_map.mp hr'
+          have := List.all_eq_true.mp hits _ hit
+          simp only [itemOK, Bool.and_eq_true, List.all_eq_true] at this
+          exact this.2 r0 hr0)
+      exact ⟨hk.1, fun y hy => ⟨(hk.2 y hy).1, (hk.2 y hy).2 _ rfl⟩⟩
+    -- the first group
+    have hnd' : ((b1.1.map (colSpecOf env)).map
+        (fun c => (Column.mk1 c.raw (some (DS.table s nm, s ++ "." ++ nm))).key)).Nodup := by
+      rw [List.map_map]
+      have : (fun it => (tgtCol env tgt it).key) =
+          ((fun c : ColSpec => (Column.mk1 c.raw (some (DS.table s nm, s ++ "." ++ nm))).key) ∘ colSpecOf env) := by
+        funext it
+        simp only [Function.comp, tgtCol, hd, hprinted]
+      rw [← this]; exact hnd
+    obtain ⟨gA, hgA, hwA, hwcA⟩ := cleanupGroup_first env.importDefault s nm (fromTabs env b1.2) env.revStar
+      (KEYSof env.importDefault (fromTabs env b1.2)) (b1.1.map (colSpecOf env)) hb.writeSet (hb.notRead hself') hg1col hout
+      (Wired.base hb) hnd'
+      (by
+        intro c hc
+        refine ⟨?_, hsrcB b1 (by simp) c hc⟩
+        obtain ⟨it, hit, rfl⟩ := List.mem_map.mp hc
+        have := List.all_eq_true.mp hkeys1 it hit
+        intro he
+        rw [he] at this
+        simp at this)
+    -- the later groups
+    have hcw : ∀ c ∈ (b1.1.map (colSpecOf env)).map (fun c => Column.mk1 c.raw (some (DS.table s nm, s ++ "." ++ nm))),
+        c.parent? = some (DS.table s nm, s ++ "." ++ nm) ∧ colOK c := by
+      intro c hc
+      obtain ⟨x, _, rfl⟩ := List.mem_map.mp hc
+      refine ⟨rfl, ?_⟩
+      intro p hp'
+      simp only [Column.mk1, List.mem_singleton] at hp'
+      rw [hp']; rfl
+    obtain ⟨g2, hg2, hw2⟩ := groupsPos_wired env.importDefault s nm env.revStar _ hb.writeSet (hb.notRead hself') hcw
+      (restp.map (fun b => (b.1.map (colSpecOf env), fromTabs env b.2))) gA _ hwA hwcA
+      (by
+        intro grp hgrp'
+        obtain ⟨b, hbm, rfl⟩ := List.mem_map.mp hgrp'
+        have hpb := List.all_eq_true.mp hparts b (by simp [hbm])
+        simp only [Bool.and_eq_true, beq_iff_eq] at hpb
+        refine ⟨by simp only [List.length_map]; exact hpb.2, ?_⟩
+        intro c hc g' hfr
+        exact hsrcB b (by simp [hbm]) c hc g' hfr)
+    -- the statement
+    have hwfin : Wired (((b1 :: restp).flatMap (fun b => fromTabs env b.2)).foldl addReadO (g0 (mkTable env tgt none))) g2
+        (specPairsUnion env tgt (b1 :: restp)) := by
+      apply hw2.congr
+      intro x
+      simp only [specPairsUnion, List.mem_append, List.flatMap_map, List.mem_flatMap]
+      have h1 := keyPairs_spec env tgt b1.1 b1.2 x
+      rw [hd, hprinted] at h1
+      rw [h1]
+      constructor
+      · rintro (hx | ⟨b, hbm, hx⟩)
+        · exact Or.inl hx
+        · refine Or.inr ⟨b, hbm, (unionBranchPairs_spec env tgt b1.1 b x).mp ?_⟩
+          have : b1.1.map (tgtCol env tgt) =
+              (b1.1.map (colSpecOf env)).map (fun c => Column.mk1 c.raw (some (DS.table s nm, s ++ "." ++ nm))) := by
+            rw [List.map_map]
+            apply List.map_congr_left
+            intro it _
+            simp only [Function.comp, tgtCol, hd, hprinted]
+          rw [this]; exact hx
+      · rintro (hx | ⟨b, hbm, hx⟩)
+        · exact Or.inl hx
+        · refine Or.inr ⟨b, hbm, ?_⟩
+          have : b1.1.map (tgtCol env tgt) =
+              (b1.1.map (colSpecOf env)).map (fun c => Column.mk1 c.raw (some (DS.table s nm, s ++ "." ++ nm))) := by
+            rw [List.map_map]
+            apply List.map_congr_left
+            intro it _
+            simp only [Function.comp, tgtCol, hd, hprinted]
+          rw [← this]; exact (unionBranchPairs_spec env tgt b1.1 b x).mpr hx
+    refine ⟨(g0 (mkTable env tgt none)).compose g2, ?_, edgesExact_compose (g0 (mkTable env tgt none)) g2 _ _ _
+      (by intro e he; rw [g0_edges] at he; cases he)
+      (edgesExact_of_wired hb hwfin (specPairsUnion_isCol env tgt (b1 :: restp)) ?_ (by intro p hp'; cases hp'))⟩
+    · rw [exWriteQuery_eq]
+      unfold wq0
+      rw [writeTargetHolder_none env isInsert tgt hp, exQuery_setop_tab env _ first rest hf hr]
+      have hinit : initHolder (ctxOf (g0 (mkTable env tgt none))) = g0 (mkTable env tgt none) := by
+        rw [hmk]; exact initHolder_ctxOf_g0 s nm al
+      have hsp : branchParts first :: rest.map opBranchParts = b1 :: restp := hparts_def
+      rw [hinit, hsp, finishBranches_groups, hgrp, hall]
+      simp only [List.map_cons, List.foldlM_cons, bind, Except.bind, hgA, hg2]
+      rw [expandWildcard_id env.prov g2 hp hw2.pay]
+    · intro u v
+      rw [hbE]; simp
+
+
 end SqlLineage.ColumnsExact
